@@ -39,8 +39,8 @@ func copyTags(m map[string]string) map[string]string {
 type Log struct {
 	mu  sync.Mutex
 	evs []Ev
-	On  func(*Ev)         // optional observer, called with the lock held
-	Pre func(e *Ev)       // optional: called at the start of every reporter call, before the log is locked (may park the caller)
+	On  func(*Ev)   // optional observer, called with the lock held
+	Pre func(e *Ev) // optional: called at the start of every reporter call, before the log is locked (may park the caller)
 }
 
 func (l *Log) add(e Ev) {
